@@ -13,12 +13,25 @@ META = {
         "quick": {"tweak": "all internal keys d in [1,N-1] (both parities), merkle root absent or any 32 bytes",
                   "tree": "all binary tree shapes with 1..4 leaves, leaf scripts = one symbolic push of 1..2 bytes + an opcode, leaf version 0xC0 (and 0xC2, 0xC4, 0xFE for n <= 2) shared by the leaves; for n in {2,3} also the same script under two versions, "
                           "pairwise different leaf scripts; every leaf of every tree",
+                  "history": "one tree object (all shapes with 2..3 leaves, leaf version 0xC0) asked for the control block of every leaf with internal key P1, then with "
+                             "another internal key P2 (different x-only key), then with P1 again; P1, P2 = any d*G; every answer after the first must be the "
+                             "BIP341 block of the key of that call and recompute that key's output key",
+                  "tamper-version": "control block of the last leaf of a 1- or 2-leaf tree whose leaf version is ANY even byte (symbolic): first byte replaced by "
+                                    "ANY other byte value (symbolic new version and parity bit); the altered block must not fold to the committed Merkle root "
+                                    "unless the parity bit is altered too",
                   "tamper": "byte positions {0,1,16,32,33,64,65,96} (version/parity byte, first/middle/last byte of the internal key and of each path hash) of a 97-byte control block of a 3-leaf tree, replacement value symbolic"},
-        "thorough": {"tree": "all shapes with 1..5 leaves", "tamper": "every byte position 0..96"}},
-    "outside": ["the binding of (internal key, root) -> output key and collision resistance of tagged hashes (assumed, listed)",
+        "thorough": {"tree": "all shapes with 1..5 leaves", "tamper": "every byte position 0..96", "history": "all shapes with 2..4 leaves",
+                     "tamper-version": "trees with 1..3 leaves"}},
+    "outside": ["odd leaf versions (the low bit of the first control-block byte is the parity bit, BIP341 leaf versions are even); BIP341's reserved value 0x50 is "
+                "treated like any other even version, as the library does",
+                "O4-tamper-version judges an altered version/parity byte by 'does not fold to the committed Merkle root, or announces another parity': that another "
+                "root gives another output key is the binding assumption below; the replay demands exactly the property (refused, or not the same key and parity)",
+                "O3-history: sequences of more than three calls per leaf, more than two internal keys, P2 = -P1 (same x-only key), leaf versions other than 0xC0",
+                "the binding of (internal key, root) -> output key and collision resistance of tagged hashes (assumed, listed)",
                 "tweak values t >= N (probability 2^-128; BIP341 fails there)", "trees with more than 5 leaves (4 in the quick tier); a single 6-leaf shape did not finish within 25 minutes"],
     "stubs": ["abstract prime-order group (symx/field.py)", "SHA-256 uninterpreted on symbolic input (tag prefixes hashed for real)"],
-    "assumptions": ["prime-order group (C03)", "the tweaked key is not the point at infinity (probability 2^-256)", "tagged hashes are injective: different leaves / branches have different hashes"],
+    "assumptions": ["prime-order group (C03)", "the tweaked key is not the point at infinity (probability 2^-256)", "tagged hashes are injective: different leaves / branches have different hashes",
+                    "O4-tamper-version: collision-freeness instantiated for every pair of uninterpreted hash calls made on the path (equal digests only for equal inputs)"],
 }
 MANIFEST = {"technique": "symbolic execution of the real taproot tweak / tree / control-block code over an abstract prime-order group with "
                          "uninterpreted tagged hashes; GF(N) canonical form + z3 (LIA)"}
@@ -177,6 +190,9 @@ def _tree_path(e, shape, n, ver=0xC0, dup=False):
     Ppt = e.point(d)
     # one (even) leaf version shared by all leaves, pairwise different scripts: TapBranch.control_block searches
     # leaves with ==, and every undecided equality would double the number of paths
+    if ver == "sym":
+        # any even leaf version 0x00..0xFE (BIP341: c[0] & 0xfe), decided by the solver
+        ver = 2 * SI.var("verh", 0, 127)
     versions = [ver for i in range(n)]
     pushes = [SBytes.sym(f"leaf{i}", 1 + (i % 2)) for i in range(n)]
     if dup and n >= 2:
@@ -288,6 +304,117 @@ def replay_tree(w):
         if back.serialize() != exp or back.external_pubkey(scripts[i]) != Qw:
             bad.append(f"cb parse/recompute {i}")
     return {"violated": bool(bad), "observed": f"shape {w['shape']}: {bad}"}
+
+
+# ---------------------------------------------------------------------------------------- O3h one tree object, several internal keys
+
+@with_env("taproot", "script")
+def _history_path(e, shape, n):
+    """history on ONE tree object: control blocks (and output keys) are asked for internal key P1, then for another internal key P2,
+    then for P1 again; every answer must be the one BIP341 prescribes for the key of *that* call (internal key bytes, parity bit of
+    that key's output key, path), and must recompute that key's output key."""
+    tm = loader.load("taproot")
+    sc = loader.load("script")
+    F = e.fld
+    ds = [SI.var("d", 1, N - 1), SI.var("d2", 1, N - 1)]
+    # two different x-only internal keys (P2 = -P1 is the same x-only key and gives the same blocks; the abstract group does not
+    # relate the coordinates of d and N-d when both are free variables)
+    assume(s_and(ds[1] != ds[0], ds[1] + ds[0] != N))
+    pts = [e.point(d) for d in ds]
+    pushes = [SBytes.sym(f"leaf{i}", 1 + (i % 2)) for i in range(n)]
+    for i in range(n):
+        for j in range(i + 1, n):
+            if len(pushes[i]) == len(pushes[j]):
+                assume(pushes[i] != pushes[j])
+    scripts = [sc.Script([pushes[i], 0xAC]) for i in range(n)]
+    leaves = [tm.TapLeaf(scripts[i], 0xC0) for i in range(n)]
+    raw_scripts = [bytes([len(pushes[i])]) + pushes[i] + b"\xac" for i in range(n)]
+    lh = [spec_leaf_hash(0xC0, raw_scripts[i]) for i in range(n)]
+    for i in range(n):
+        for j in range(i + 1, n):
+            assume(lh[i] != lh[j])
+    tree = build_tree(tm, shape, leaves)
+    root, paths = spec_tree(shape, lh)
+    wants, exps = [], []
+    for d in ds:
+        Px, Ppar = e.grp.coords(d)
+        dd = (N - d) if branch(Ppar) else d
+        t = core.int_from_bytes(tagged(b"TapTweak", to32(core.wrap(Px)) + root), "big")
+        want = F.reduce(field.lift_si(dd) + field.lift_si(t))
+        assume(wrapb(core.b_not(F.is_zero_cond(field.lift_si(want)))))  # output key is not the point at infinity
+        Qx, Qpar = e.grp.coords(want)
+        wants.append(want)
+        exps.append((core.s_ite(wrapb(Qpar), 1, 0), to32(core.wrap(Px))))
+    for i in range(n):
+        def wit(env, i=i):
+            return {"d": env["d"], "d2": env["d2"], "shape": repr(shape), "leaf": i, "pushes": [conc_value(p, env).hex() for p in pushes]}
+        for step, k in enumerate((0, 1, 0)):
+            cb = tree.control_block(pts[k], leaves[i])
+            if step == 0:
+                continue  # the first call on a fresh tree is O2O3-tree's subject
+            which = "a second internal key" if step == 1 else "the first internal key again"
+            if not check(cb is not None, f"no control block for a leaf of the tree ({which} on the same tree object)", witness=wit):
+                return "violated"
+            parity, px = exps[k]
+            exp = core.sbytes(SBytes([0xC0 + parity])) + px
+            for h in paths[i]:
+                exp = exp + h
+            ser = cb.serialize()
+            if not check((len(ser) == len(exp)) and (ser == exp), f"control block for {which} on the same tree object is not the one for that key", witness=wit):
+                return "violated"
+            back = tm.ControlBlock.parse(ser)
+            check(F.same(back.external_pubkey(scripts[i]).d, wants[k]), f"control block for {which} on the same tree object does not recompute that key's output key", witness=wit)
+            check(F.same(tree.external_pubkey(pts[k]).d, wants[k]), f"output key for {which} on the same tree object", witness=wit)
+    return "ok"
+
+
+def ob_history(n, part=0, parts=1):
+    shs = [sh for k, sh in enumerate(shapes(n)) if k % parts == part]
+    runs = [sym_run(lambda: _history_path(sh, n), mode="int", timeout_ms=60000, max_paths=3000, max_violations=3) for sh in shs]
+    m = merge_runs(runs)
+    m["sample"] = {"leaves": n, "calls on one tree object": "control_block(P1, leaf), control_block(P2, leaf), control_block(P1, leaf) for every leaf",
+                   "keys": "P1 = d*G, P2 = d2*G, both symbolic"}
+    return m
+
+
+def replay_history(w):
+    from buidl import pecc, taproot, script
+    shape = eval(w["shape"])
+    n = len(w["pushes"])
+    scripts = [script.Script([bytes.fromhex(x), 0xAC]) for x in w["pushes"]]
+    leaves = [taproot.TapLeaf(s, 0xC0) for s in scripts]
+
+    def rtree(sh):
+        if isinstance(sh, int):
+            raw = scripts[sh].raw_serialize()
+            return ref_tag(b"TapLeaf", b"\xc0" + bytes([len(raw)]) + raw), {sh: []}
+        lh, lp = rtree(sh[0])
+        rh, rp = rtree(sh[1])
+        paths = {k: v + [rh] for k, v in lp.items()}
+        paths.update({k: v + [lh] for k, v in rp.items()})
+        return ref_tag(b"TapBranch", min(lh, rh) + max(lh, rh)), paths
+    root, paths = rtree(shape)
+    tree = build_tree(taproot, shape, leaves)
+    keys = []
+    for d in (w["d"], w["d2"]):
+        Pp = d * pecc.G
+        dd = d if Pp.y.num % 2 == 0 else N - d
+        t = int.from_bytes(ref_tag(b"TapTweak", Pp.x.num.to_bytes(32, "big") + root), "big")
+        keys.append((Pp, ((dd + t) % N) * pecc.G))
+    bad = []
+    # the same sequence of calls as in the symbolic path, on one tree object
+    for i in range(n):
+        for step, k in enumerate((0, 1, 0)):
+            Pp, Qw = keys[k]
+            cb = tree.control_block(Pp, leaves[i])
+            exp = bytes([0xC0 + Qw.parity]) + Pp.x.num.to_bytes(32, "big") + b"".join(paths[i])
+            if cb is None or cb.serialize() != exp:
+                bad.append(f"leaf {i} call {step + 1} (key {'d' if k == 0 else 'd2'}): control block is not the one for this key")
+            elif taproot.ControlBlock.parse(cb.serialize()).external_pubkey(scripts[i]) != Qw:
+                bad.append(f"leaf {i} call {step + 1}: does not recompute this key's output key")
+            if tree.external_pubkey(Pp) != Qw:
+                bad.append(f"leaf {i} call {step + 1}: output key")
+    return {"violated": bool(bad), "observed": f"one tree object {w['shape']}, keys d={w['d']:#x}, d2={w['d2']:#x}, calls control_block(P1), (P2), (P1) per leaf: {bad[:4] or 'all as BIP341'}"}
 
 
 # ---------------------------------------------------------------------------------------- O2b leaf scripts past the 1-byte compact size
@@ -464,6 +591,158 @@ def replay_tamper(w):
     return {"violated": same, "observed": f"byte {w['pos']} {ser[w['pos']]:#x} -> {new:#x}: parses, and re-serialises {'to the ORIGINAL bytes' if same else 'differently'}"}
 
 
+# ---------------------------------------------------------------------------------------- O4v tamper of the version/parity byte, followed through the recomputation
+
+def assume_collision_free(start):
+    """the stated collision-resistance assumption, instantiated for every pair of (uninterpreted) hash calls made on this path since
+    `start`: equal digests only for equal inputs"""
+    calls, seen = [], set()
+    for fname, node in shims.HASH_CALLS[start:]:
+        if id(node) not in seen:
+            seen.add(id(node))
+            calls.append((fname, node))
+    for i in range(len(calls)):
+        for j in range(i + 1, len(calls)):
+            (fa, na), (fb, nb) = calls[i], calls[j]
+            if fa.split("_")[0] != fb.split("_")[0]:
+                continue
+            if fa == fb:
+                same_in = core.b_and(*[core.b_cmp("eq", x, y) for x, y in zip(na.args[3:], nb.args[3:])])
+                assume(wrapb(core.b_or(core.b_not(core.b_cmp("eq", na, nb)), same_in)))
+            else:
+                assume(wrapb(core.b_not(core.b_cmp("eq", na, nb))))
+
+
+@with_env("taproot", "script")
+def _tamper_first_path(e, n):
+    """the first control-block byte (leaf version | parity) of a genuine control block -- any even leaf version, solver-chosen -- is
+    replaced by any other byte value (new version 2*nvh, new parity bit nvp, both solver-chosen).  Unlike O4-tamper this follows the
+    altered block through the recomputation: with another leaf version the block must no longer fold to the committed Merkle root
+    (collision-freeness of the tagged hashes is assumed for the hash calls of the path; that another root gives another output key is
+    the stated binding assumption); with only the parity bit flipped the announced parity is no longer the output key's."""
+    tm = loader.load("taproot")
+    sc = loader.load("script")
+    F = e.fld
+    h0 = len(shims.HASH_CALLS)
+    d = SI.var("d", 1, N - 1)
+    Ppt = e.point(d)
+    ver = 2 * SI.var("verh", 0, 127)
+    pushes = [SBytes.sym(f"leaf{i}", 1) for i in range(n)]
+    for i in range(n):
+        for j in range(i + 1, n):
+            assume(pushes[i] != pushes[j])
+    scripts = [sc.Script([pushes[i], 0xAC]) for i in range(n)]
+    k = n - 1   # the leaf that is spent: the deepest one of a right comb
+    versions = [0xC0] * (n - 1) + [ver]
+    leaves = [tm.TapLeaf(scripts[i], versions[i]) for i in range(n)]
+    shape = shapes(n)[0] if n > 1 else 0
+    tree = build_tree(tm, shape, leaves)
+    raw_scripts = [bytes([1]) + pushes[i] + b"\xac" for i in range(n)]
+    lh = [spec_leaf_hash(versions[i], raw_scripts[i]) for i in range(n)]
+    for i in range(n):
+        for j in range(i + 1, n):
+            assume(lh[i] != lh[j])
+    root, paths = spec_tree(shape, lh)
+    Px, Ppar = e.grp.coords(d)
+    dd = (N - d) if branch(Ppar) else d
+    t = core.int_from_bytes(tagged(b"TapTweak", to32(core.wrap(Px)) + root), "big")
+    want = F.reduce(field.lift_si(dd) + field.lift_si(t))
+    assume(wrapb(core.b_not(F.is_zero_cond(field.lift_si(want)))))
+    Qx, Qpar = e.grp.coords(want)
+    parity = core.s_ite(wrapb(Qpar), 1, 0)
+    wit_build = lambda env: {"n": n, "d": env["d"], "ver": 2 * env["verh"], "build": True,  # noqa
+                             "pushes": [bytes_env(env, f"leaf{i}", 1).hex() for i in range(n)]}
+    exp = core.sbytes(SBytes([ver + parity])) + to32(core.wrap(Px))
+    for h in paths[k]:
+        exp = exp + h
+    try:
+        cb = tree.control_block(Ppt, leaves[k])
+    except AttributeError:
+        # only the BIP341 output key is assumed finite: the implementation tweaked with something else
+        check(False, "the implementation's output key is not the BIP341 one (it may be the point at infinity where BIP341's is not)", witness=wit_build)
+        return "other tweak"
+    ser = cb.serialize()
+    if not check((len(ser) == len(exp)) and (ser == exp), "the control block that is going to be altered is not the BIP341 one", witness=wit_build):
+        return "other block"
+    nvh = SI.var("nvh", 0, 127)
+    nvp = SI.var("nvp", 0, 1)
+    nver = 2 * nvh
+    assume(s_or(nver != ver, nvp != parity))   # the byte is altered
+    alt = core.sbytes(SBytes([nver + nvp])) + ser[1:]
+    flip = bool(nvp != parity)
+    wit = lambda env: {"n": n, "d": env["d"], "ver": 2 * env["verh"], "newver": 2 * env["nvh"], "flip": flip,  # noqa
+                       "pushes": [bytes_env(env, f"leaf{i}", 1).hex() for i in range(n)]}
+    try:
+        back = tm.ControlBlock.parse(alt)
+    except ValueError:
+        check(True, "rejected")
+        return "rejected"
+    check(s_and(back.tapleaf_version == nver, back.parity == nvp), "parsed leaf version / parity are not those of the altered first byte", witness=wit)
+    if bool(nver != ver):
+        if flip:
+            return "version and parity altered"   # the announced parity (checked above) is not the output key's any more
+        got = back.merkle_root(scripts[k])
+        assume_collision_free(h0)
+        check(got != root, "control block with an altered leaf version still folds to the committed Merkle root", witness=wit)
+        return "version altered"
+    # only the parity bit is flipped: whatever key is recomputed, the announced parity is no longer the output key's
+    check(s_not(back.parity == parity), "control block with the parity bit flipped still announces the output key's parity", witness=wit)
+    return "parity flipped"
+
+
+def ob_tamper_first(ns):
+    runs = [sym_run(lambda: _tamper_first_path(n), mode="bv", timeout_ms=60000, max_paths=3000, max_violations=12,
+                    expect_classes=["version altered", "version and parity altered", "parity flipped"]) for n in ns]
+    m = merge_runs(runs)
+    m["sample"] = {"control block": "of the last leaf of a tree with %s leaves, leaf version any even byte (symbolic)" % (list(ns),),
+                   "alteration": "first byte -> any other value (symbolic new version and parity bit)"}
+    return m
+
+
+def replay_tamper_first(w):
+    """real keys and hashes: the altered block must be refused or must not reproduce the genuine output key and parity"""
+    from buidl import pecc, taproot, script
+    n = w["n"]
+    Pp = w["d"] * pecc.G
+    scripts = [script.Script([bytes.fromhex(x), 0xAC]) for x in w["pushes"]]
+    versions = [0xC0] * (n - 1) + [w["ver"]]
+    shape = shapes(n)[0] if n > 1 else 0
+    # the genuine commitment, computed independently of the library's tree code
+    def rtree(sh):
+        if isinstance(sh, int):
+            raw = scripts[sh].raw_serialize()
+            return ref_tag(b"TapLeaf", bytes([versions[sh]]) + bytes([len(raw)]) + raw), {sh: []}
+        lh, lp = rtree(sh[0])
+        rh, rp = rtree(sh[1])
+        paths = {k: v + [rh] for k, v in lp.items()}
+        paths.update({k: v + [lh] for k, v in rp.items()})
+        return ref_tag(b"TapBranch", min(lh, rh) + max(lh, rh)), paths
+    root, paths = rtree(shape)
+    dd = w["d"] if Pp.y.num % 2 == 0 else N - w["d"]
+    t = int.from_bytes(ref_tag(b"TapTweak", Pp.x.num.to_bytes(32, "big") + root), "big")
+    Qw = ((dd + t) % N) * pecc.G
+    genuine = bytes([w["ver"] + Qw.parity]) + Pp.x.num.to_bytes(32, "big") + b"".join(paths[n - 1])
+    leaves = [taproot.TapLeaf(scripts[i], versions[i]) for i in range(n)]
+    built = build_tree(taproot, shape, leaves).control_block(Pp, leaves[n - 1])
+    if built is None or built.serialize() != genuine:
+        return {"violated": True, "observed": f"{n}-leaf tree, leaf version {w['ver']:#x}: the library builds control block "
+                                              f"{built.serialize().hex() if built else None}, BIP341: {genuine.hex()}"}
+    if w.get("build"):
+        return {"violated": False, "observed": "the library builds the BIP341 control block"}
+    new = w["newver"] + (Qw.parity ^ (1 if w["flip"] else 0))
+    if new == genuine[0]:
+        return {"violated": False, "observed": "not an alteration on the real curve"}
+    alt = bytes([new]) + genuine[1:]
+    try:
+        back = taproot.ControlBlock.parse(alt)
+        q2 = back.external_pubkey(scripts[n - 1])
+    except (ValueError, RuntimeError) as ex:
+        return {"violated": False, "observed": f"rejected: {ex!r}"}
+    same = q2 == Qw and back.parity == Qw.parity
+    return {"violated": same, "observed": f"{n}-leaf tree, leaf version {w['ver']:#x}: first control-block byte {genuine[0]:#x} -> {new:#x} parses and "
+                                          f"{'STILL reproduces the output key and parity' if same else 'no longer reproduces the output key and parity'}"}
+
+
 def obligations(tier):
     q = tier == "quick"
     obs = [Ob("O1-tweak", ob_tweak, replay="tweak")]
@@ -475,6 +754,13 @@ def obligations(tier):
             obs.append(Ob("O2O3-tree", ob_tree, {"n": n, "part": part, "parts": parts}, replay="tree", budget_s=3000))
     obs.append(Ob("O2-long-leaf", ob_long_leaf, {"lengths": (252, 253, 254, 520) if q else (252, 253, 254, 255, 256, 300, 520, 4660, 65535, 65536)},
                   replay="long_leaf"))
+    # one tree object used with two internal keys (P1, P2, P1 again) for every leaf
+    for n in ((2, 3) if q else (2, 3, 4)):
+        parts = len(shapes(n))
+        for part in range(parts):
+            obs.append(Ob("O3-history", ob_history, {"n": n, "part": part, "parts": parts}, replay="history", budget_s=1500))
+    for n in ((1, 2) if q else (1, 2, 3)):
+        obs.append(Ob("O4-tamper-version", ob_tamper_first, {"ns": (n,)}, replay="tamper_first", budget_s=1500))
     pos = [0, 1, 16, 32, 33, 64, 65, 96] if q else list(range(97))
     for i in range(0, len(pos), 2 if q else 7):
         obs.append(Ob("O4-tamper", ob_tamper, {"positions": tuple(pos[i:i + (2 if q else 7)])}, replay="tamper", budget_s=1500))
